@@ -32,7 +32,7 @@ structure DecOK (cfg : Cfg) (inp : List Writer.Sample) (dec : Decisions) : Prop 
   shape : dec.pieces.length = inp.length
   samples : ∀ x ∈ List.zip inp dec.pieces, SampleOK cfg.k x.1 x.2
   nodup : (dec.groups.map (·.id)).Nodup
-  groups : ∀ G ∈ dec.groups, G.id < 2 ^ 32 ∧ G.members ≠ [] ∧
+  groups : ∀ G ∈ dec.groups, G.id < 2 ^ 32 ∧ G.members ≠ [] ∧ G.members.length + 1 < 2 ^ 31 ∧
     ∀ rj ∈ List.zipIdx G.members, ∃ d, lookup3 dec.pieces rj.1 = some d ∧ d.group = G.id ∧ d.slot = rj.2
   pieces : ∀ rd ∈ allRefs dec, ∃ G, Writer.findGroup dec rd.2.group = some G ∧ G.members[rd.2.slot]? = some rd.1
   total : (allRefs dec).length + 1 < 2 ^ 31
@@ -50,8 +50,8 @@ theorem decOK_of (cfg : Cfg) (inp : List Writer.Sample) (dec : Decisions) (h : D
     obtain ⟨⟨⟨⟨b1, b2⟩, b3⟩, b4⟩, b5⟩ := a4 y hy
     exact ⟨b1, b2, b3, b4, b5⟩
   · intro G hG
-    obtain ⟨⟨a1, a2⟩, a3⟩ := h10 G hG
-    refine ⟨a1, a2, ?_⟩
+    obtain ⟨⟨⟨a1, a2⟩, a2'⟩, a3⟩ := h10 G hG
+    refine ⟨a1, a2, a2', ?_⟩
     intro rj hrj
     have := a3 rj hrj
     cases hl : lookup3 dec.pieces rj.1 with
